@@ -18,13 +18,13 @@ CLAIMS = {
         "technique": "runtime monitoring: tag-based terminal-emulator oracle + per-bar state-snapshot ranges at every flush",
     },
     "C03": {
-        "text": "Exploration: the C01/C02 alphabets with println/suspend weight tripled, limiters exhausted on purpose (1-3 Hz targets, 21+ ticks at one virtual instant), every finish/drop order; at every flush every emitted log line must be on the screen exactly once, in emission order, above the live bars; each history ends with println+clear+println to reveal latent mis-accounting. Schedule lane: inside the closure of MultiProgress::suspend / ProgressBar::suspend (member, standalone) a second thread's inc/tick/set_message/println is let loose and given 0.5-4 ms; the closure's lines must be on the screen exactly once, above the bars.",
+        "text": "Exploration: the C01/C02 alphabets with println/suspend weight tripled, limiters exhausted on purpose (1-3 Hz targets, 21+ ticks at one virtual instant), every finish/drop order; at every flush every emitted log line must be on the screen exactly once, in emission order, above the live bars; each history ends with println+clear+println to reveal latent mis-accounting. Schedule lane: inside the closure of MultiProgress::suspend / ProgressBar::suspend (member, standalone) a second thread's inc/tick/set_message/println is let loose and given 0.5-4 ms; the closure's lines must be on the screen exactly once, above the bars. Limiter-exhausting bursts are generated in front of println/suspend/clear as well; a single-bar exhausted-limiter lane.",
         "design_ref": "DESIGN.md §4 C03",
         "note": SCREEN_NOTE,
         "technique": "runtime monitoring: exactly-once / in-order log oracle over the emulated screen at every flush",
     },
     "C04": {
-        "text": "Exploration: histories with limiter-exhausting bursts directly before finish*/abandon*/finish_using_style/drop on 1-255 Hz targets, standalone and in a MultiProgress; monitors: a finishing call on a visible bar must flush at least once and that frame must show the final state; dropping a finished bar must cause zero terminal calls; visibly finished bars must stay on screen until println/clear/suspend/remove intervenes; getters must equal the model.",
+        "text": "Exploration: histories with limiter-exhausting bursts directly before finish*/abandon*/finish_using_style/drop on 1-255 Hz targets, standalone and in a MultiProgress; monitors: a finishing call on a visible bar must flush at least once and that frame must show the final state; dropping a finished bar must cause zero terminal calls; visibly finished bars must stay on screen until println/clear/suspend/remove intervenes; getters must equal the model. Configuration lane: under set_move_cursor(true) a single member with fixed-size frames is finished in 8 ways; clearing variants must leave no bar row, visible ones the final frame exactly once.",
         "design_ref": "DESIGN.md §4 C04",
         "note": SCREEN_NOTE + " Iterator-driven completion is covered by C17's lanes.",
         "technique": "runtime monitoring: flush-presence + final-frame oracle on hooked virtual time",
@@ -54,31 +54,31 @@ CLAIMS = {
         "technique": "runtime monitoring: grammar-directed differential oracle + panic monitor",
     },
     "C13": {
-        "text": "Exploration with an exhaustive slice: {bar:N} for every N 0..=64, every length 0..=64 and every position 0..=len+1 (plus unknown length) over 3 (quick) / all 18 (thorough) progress character sets of 2..10 clusters of 1 or 2 columns is rendered through a real bar and parsed back into filled / partial / background cells: cell count = floor(N/c), filled = floor(pos*cells/len) from exact rational arithmetic (neighbour accepted only within f32 noise of an integer), monotone in pos, 0 at pos 0, full iff pos >= len, partial cell only when neither empty nor full and always a configured character; sampled huge lengths/positions/widths; {wide_bar} lines must be exactly as wide as the terminal (within one cell) on terminals 1..300. The wide_bar lane includes a two-line message before or after the bar.",
+        "text": "Exploration with an exhaustive slice: {bar:N} for every N 0..=64, every length 0..=64 and every position 0..=len+1 (plus unknown length) over 3 (quick) / all 18 (thorough) progress character sets of 2..10 clusters of 1 or 2 columns is rendered through a real bar and parsed back into filled / partial / background cells: cell count = floor(N/c), filled = floor(pos*cells/len) from exact rational arithmetic (neighbour accepted only within f32 noise of an integer), monotone in pos, 0 at pos 0, full iff pos >= len, partial cell only when neither empty nor full and always a configured character; sampled huge lengths/positions/widths; {wide_bar} lines must be exactly as wide as the terminal (within one cell) on terminals 1..300. The wide_bar lane includes a two-line message before or after the bar. Schedule lane: while a member with {wide_bar} is drawn, the MultiProgress is switched to a terminal of another width at every point where its state is not held (delay hook); each terminal must receive lines of exactly its own width.",
         "design_ref": "DESIGN.md §4 C13",
         "note": "Trusted: the cell parser and rational reference in harness/src/props/c13.rs. The exhaustive slice is complete for the stated ranges; everything beyond it is sampled.",
         "technique": "runtime monitoring: exhaustive-slice + sampled differential oracle on rendered bar cells",
     },
     "C14": {
-        "text": "Exploration: sequences of 1-3 builder calls with boundary arguments (0/1/2/3/30 tick characters, 0/1/2/3/8 tick strings incl. empty ones, 0..10 progress clusters of equal/mixed/zero width, with_key, template); a panic inside the builder call is the accepted explicit rejection; every accepted style is asked for tick strings at tick values up to u64::MAX and drawn for 6 bar states x 4 terminal widths in release and debug builds; any panic after acceptance is a violation. A render that allocates without bound is reported by the resource watchdog as resource-blowup [memory]. State sweep: a style with all 28 documented keys is drawn after each of 1-12 operations of an extreme history on a virtual clock (lengths 0/1/2^63/u64::MAX/none, u64-extreme positions, steps nanoseconds to decades apart, resets, finish/abandon), time getters included.",
+        "text": "Exploration: sequences of 1-3 builder calls with boundary arguments (0/1/2/3/30 tick characters, 0/1/2/3/8 tick strings incl. empty ones, 0..10 progress clusters of equal/mixed/zero width, with_key, template); a panic inside the builder call is the accepted explicit rejection; every accepted style is asked for tick strings at tick values up to u64::MAX and drawn for 6 bar states x 4 terminal widths in release and debug builds; any panic after acceptance is a violation. A render that allocates without bound is reported by the resource watchdog as resource-blowup [memory]. State sweep: a style with all 28 documented keys is drawn after each of 1-12 operations of an extreme history on a virtual clock (lengths 0/1/2^63/u64::MAX/none, u64-extreme positions, steps nanoseconds to decades apart, resets, finish/abandon), time getters included. Terminal width 0 and a multi-line base template are part of the draw matrix.",
         "design_ref": "DESIGN.md §4 C14",
         "note": "Tick counts beyond a few dozen are reached through the public ProgressStyle::get_tick_str(idx), not by ticking 2^32 times.",
         "technique": "runtime monitoring: panic monitor separating build-time rejection from draw-time panics",
     },
     "C05": {
-        "text": "Exploration on the virtual clock (no sleeping): arrival processes of 200-1500 requests with gaps from 0 ns bursts over k*interval+-{0,1,999999} ns to hours, for a seeded third of the rates (quick) / every rate 1..=255 (thorough), on term_like_with_hz and term_like spy targets, standalone and as the target of a MultiProgress with 1-3 bars. Monitors: sliding-window law count <= 20 + R*T + 1 over all pairs of ordinary frames (potential function, exact integer arithmetic); every ordinary request >= one interval after the last painted frame is painted; position updates obey burst 10 / 1 ms on an unlimited target; staleness <= interval + 1 ms after every position update on a limited target; every painted frame shows the latest pos/len/message; forced draws always paint. MultiProgress worlds also issue nested requests (update() whose closure lets virtual time pass and redraws a sibling bar), which reach the shared limiter with a stamp older than its last frame.",
+        "text": "Exploration on the virtual clock (no sleeping): arrival processes of 200-1500 requests with gaps from 0 ns bursts over k*interval+-{0,1,999999} ns to hours, for a seeded third of the rates (quick) / every rate 1..=255 (thorough), on term_like_with_hz and term_like spy targets, standalone and as the target of a MultiProgress with 1-3 bars. Monitors: sliding-window law count <= 20 + R*T + 1 over all pairs of ordinary frames (potential function, exact integer arithmetic); every ordinary request >= one interval after the last painted frame is painted; position updates obey burst 10 / 1 ms on an unlimited target; staleness <= interval + 1 ms after every position update on a limited target; every painted frame shows the latest pos/len/message; forced draws always paint. MultiProgress worlds also issue nested requests (update() whose closure lets virtual time pass and redraws a sibling bar), which reach the shared limiter with a stamp older than its last frame. An eighth of the messages span two or three rows, one of them empty.",
         "design_ref": "DESIGN.md §4 C05",
         "note": "Trusted: the verif-hooks Instant shim (virtual clock) and the frame/time log of the spy terminal. Frames triggered by MultiProgress::println are exempt from the 'latest state' rule (they re-render no bar).",
         "technique": "runtime monitoring: token-bucket trace laws checked over flush events on a virtual clock",
     },
     "C07": {
-        "text": "Exploration: (a) 3-40-step sequential histories with boundary-biased u64 arguments, getters/fraction compared with a wrapping/saturating model after every step, in release and debug (overflow-checking) builds; (b) 2-16 OS threads x 1-3 clones x up to 100000 inc/dec calls each on one shared bar with hidden / unlimited / 20 Hz targets and an optional 1 ms steady ticker: conservation of the wrapping sum after join (no lost update) and no backwards read in inc-only runs. Concurrent length lane: 2-8 threads x 100-20000 inc_length/dec_length calls (optionally one unset_length); the final length is the initial one plus the sum of all deltas (or unknown); also in the Miri scenarios.",
+        "text": "Exploration: (a) 3-40-step sequential histories with boundary-biased u64 arguments, getters/fraction compared with a wrapping/saturating model after every step, in release and debug (overflow-checking) builds; (b) 2-16 OS threads x 1-3 clones x up to 100000 inc/dec calls each on one shared bar with hidden / unlimited / 20 Hz targets and an optional 1 ms steady ticker: conservation of the wrapping sum after join (no lost update) and no backwards read in inc-only runs. Concurrent length lane: 2-8 threads x 100-20000 inc_length/dec_length calls (optionally one unset_length); the final length is the initial one plus the sum of all deltas (or unknown); also in the Miri scenarios. finish_using_style with every ProgressFinish configured at construction, repeatedly; calls issued through clones and handles upgraded from WeakProgressBar.",
         "design_ref": "DESIGN.md §4 C07",
         "note": "Interleavings are whatever the OS scheduler produces on 16 cores (contention indicator in the evidence: reads that observed foreign updates) plus Miri's seeded preemptive scheduler with weak-memory emulation and data-race detection on tiny workloads (miri lane); no systematic schedule enumeration.",
         "technique": "runtime monitoring: shadow model for getters + conservation/monotonicity monitor over concurrent increments",
     },
     "C09": {
-        "text": "Exploration on the virtual clock through the public getters only (per_sec, eta, duration, elapsed): four law families - steady progress at an exactly constant rate under log-uniform/tiny/fixed cadences from 1 ms to 10 days (relative error <= 1e-6); boundedness by the largest segment rate and stall behaviour queried at nine instants up to one hour (never above the bound, below 1% after 60 s, monotone decay); forgetting (H1; reset_eta|reset|rewind; H2 must equal a fresh bar fed H2 alone within 1e-9); corners (no progress, zero/unknown length, finished). eta = (len-pos)/per_sec and duration = elapsed+eta are checked at every query instant. The forget family covers reset_eta, reset, reset_elapsed and rewinding.",
+        "text": "Exploration on the virtual clock through the public getters only (per_sec, eta, duration, elapsed): four law families - steady progress at an exactly constant rate under log-uniform/tiny/fixed cadences from 1 ms to 10 days (relative error <= 1e-6); boundedness by the largest segment rate and stall behaviour queried at nine instants up to one hour (never above the bound, below 1% after 60 s, monotone decay); forgetting (H1; reset_eta|reset|rewind; H2 must equal a fresh bar fed H2 alone within 1e-9); corners (no progress, zero/unknown length, finished). eta = (len-pos)/per_sec and duration = elapsed+eta are checked at every query instant. The forget family covers reset_eta, reset, reset_elapsed and rewinding. An abandoned bar's rate must stay within the largest rate observed.",
         "design_ref": "DESIGN.md §4 C09",
         "note": "Laws, not a closed form (none exists for irregular cadences). Trusted: the virtual clock shim. The monotone-decay law is a recorded known finding (rises at the start of some stalls by design); the other stall laws are still evaluated in those histories.",
         "technique": "runtime monitoring: algebraic/metamorphic trace laws over getter values on a virtual clock",
@@ -102,13 +102,13 @@ CLAIMS = {
         "technique": "runtime monitoring: silence monitor (terminal call counter / pipe byte count) + lock-step twin comparison",
     },
     "C18": {
-        "text": "Fault enumeration: every base history (single-bar and MultiProgress alphabets incl. set_tab_width, suspend, println, finish, drop) is run fault-free to count its n terminal calls and then re-run for every k in 1..=n twice - only call k fails / call k and all later calls fail (exhaustive in k up to 400 calls); each faulty run is followed by a probe battery on every bar (tick, set_message, inc, println, suspend, set_tab_width, set_length, force_draw, clone+drop, finish), on the MultiProgress (println, clear, suspend) and by dropping everything; monitors: no panic anywhere (release and debug builds), io::Result-returning calls report an error that occurred inside them, getters equal the fault-free model. Half of the MultiProgress worlds run with set_move_cursor(true). A third of the histories end with a live bar changing its terminal (set_draw_target, add to a second MultiProgress, re-add to its own).",
+        "text": "Fault enumeration: every base history (single-bar and MultiProgress alphabets incl. set_tab_width, suspend, println, finish, drop) is run fault-free to count its n terminal calls and then re-run for every k in 1..=n twice - only call k fails / call k and all later calls fail (exhaustive in k up to 400 calls); each faulty run is followed by a probe battery on every bar (tick, set_message, inc, println, suspend, set_tab_width, set_length, force_draw, clone+drop, finish), on the MultiProgress (println, clear, suspend) and by dropping everything; monitors: no panic anywhere (release and debug builds), io::Result-returning calls report an error that occurred inside them, getters equal the fault-free model. Half of the MultiProgress worlds run with set_move_cursor(true). A third of the histories end with a live bar changing its terminal (set_draw_target, add to a second MultiProgress, re-add to its own). The injected errors carry one of 7 io::ErrorKinds per history.",
         "design_ref": "DESIGN.md §4 C18",
         "note": "The fault index k is enumerated completely per history; the histories themselves are sampled. Faults are io::Error values returned by the spy terminal; partial writes are not modelled.",
         "technique": "runtime monitoring with fault injection at the TermLike boundary, exhaustive in the fault index",
     },
     "C17": {
-        "text": "Exploration by twin comparison: every call on a wrapped scripted source/sink is mirrored on an identical bare twin; items, bytes, return values and error kinds must agree and position() must move by exactly what the call transferred (seek: equal the returned offset). Families: Read (read, read_vectored, read_exact, read_to_end; short reads, Interrupted, hard errors, zero-length, EOF), BufRead (fill_buf / partial consume / read_line / read interleaved), Write (write, write_vectored, write_all, flush), Seek (three modes, rewind, stream_position), Iterator/DoubleEnded/ExactSize (size_hint validity, every ProgressFinish on exhaustion), tokio AsyncRead/AsyncBufRead/AsyncWrite/AsyncSeek and futures Stream polled by hand with scripted Pending (no runtime), rayon pipelines (for_each, map+collect, zip, enumerate, rev, chunks, with_min_len, with_max_len, unindexed filter) on pools of 1-16 threads with 0-20000 items incl. a probe that the bar is not finished while items are still being processed. Short-circuiting rayon consumers (find_any/first/last, any, all, position_any, try_for_each, while_some, take_any, try_reduce; indexed and unindexed sources): the position must equal the count of an upstream counting stage. The Iterator family optionally runs a second pass over the reset bar.",
+        "text": "Exploration by twin comparison: every call on a wrapped scripted source/sink is mirrored on an identical bare twin; items, bytes, return values and error kinds must agree and position() must move by exactly what the call transferred (seek: equal the returned offset). Families: Read (read, read_vectored, read_exact, read_to_end; short reads, Interrupted, hard errors, zero-length, EOF), BufRead (fill_buf / partial consume / read_line / read interleaved), Write (write, write_vectored, write_all, flush), Seek (three modes, rewind, stream_position), Iterator/DoubleEnded/ExactSize (size_hint validity, every ProgressFinish on exhaustion), tokio AsyncRead/AsyncBufRead/AsyncWrite/AsyncSeek and futures Stream polled by hand with scripted Pending (no runtime), rayon pipelines (for_each, map+collect, zip, enumerate, rev, chunks, with_min_len, with_max_len, unindexed filter) on pools of 1-16 threads with 0-20000 items incl. a probe that the bar is not finished while items are still being processed. Short-circuiting rayon consumers (find_any/first/last, any, all, position_any, try_for_each, while_some, take_any, try_reduce; indexed and unindexed sources): the position must equal the count of an upstream counting stage. The Iterator family optionally runs a second pass over the reset bar. Seekable streams may be wrapped mid-way, the bar is occasionally moved from outside the adaptor, a quarter of the relative seeks have offset 0.",
         "design_ref": "DESIGN.md §4 C17",
         "note": "Separate binary vh-adapt (indicatif features rayon, tokio, futures). Erroring calls of the all-or-nothing std methods (read_exact, read_to_end) are exempt from the byte law. Rayon interleavings are whatever the pool produces.",
         "technique": "runtime monitoring: twin (differential) comparison at the adaptor boundary + conservation of the count",
